@@ -40,6 +40,7 @@ type Profile struct {
 	Queries     bool // resources 0 and 1 are query resources (normalisation q=K -> q=K mod 2) with query events
 	LongRids    bool // resource ids around the control-line limit
 	Endgame     bool // finish by disconnecting every client and firing every eviction timer
+	Scenario    string `json:",omitempty"` // phase-structured histories (scenario.go) instead of independent random stimuli
 }
 
 // Explorer drives one history.
@@ -60,6 +61,12 @@ type Explorer struct {
 	pol         map[string]accessPolicy
 	pendingQuery map[string]*pendingQ
 	steps       int
+	// concentration of a history (about half of them): most requests come from one client and concern one
+	// resource, and the answers to one kind of request for one resource are held back, so that multi-step
+	// collisions on one (connection, resource) pair and long loading windows are frequent
+	focusC, focusR int
+	slowR          int
+	slowTyp        string
 }
 
 func name(n int) string { return "test.r" + strconv.Itoa(n) }
@@ -314,6 +321,10 @@ func (x *Explorer) answerFor(q *gw.Req) gw.Action {
 		switch {
 		case fault:
 			a.Text, a.Abs = `{"error":{"code":"system.methodNotFound","message":"Method not found"}}`, "err\tsystem.methodNotFound"
+		case strings.Contains(rest, ".res") && len(rest) > 0 && rest[len(rest)-1] >= '0' && rest[len(rest)-1] <= '9' && strings.HasSuffix(rest[:len(rest)-1], ".res"):
+			// method resN: answered with a resource response naming resource N
+			n := int(rest[len(rest)-1] - '0')
+			a.Text, a.Abs = `{"resource":{"rid":"`+name(n)+`"}}`, "resource\t"+strconv.Itoa(n)
 		case x.R.Intn(3) == 0 && x.P.Calls:
 			n := x.R.Intn(x.P.Resources)
 			a.Text, a.Abs = `{"resource":{"rid":"`+name(n)+`"}}`, "resource\t"+strconv.Itoa(n)
@@ -339,6 +350,13 @@ func (x *Explorer) svcEvent() (gw.Action, bool) {
 		return gw.Action{}, false
 	}
 	n := cands[x.R.Intn(len(cands))]
+	if x.focusR >= 0 && x.R.Intn(10) < 5 {
+		for _, cn := range cands {
+			if cn == x.focusR {
+				n = cn
+			}
+		}
+	}
 	c := x.Truth[name(n)]
 	a := gw.Action{A: "event", Subj: "event." + name(n)}
 	sn := strconv.Itoa(n)
@@ -457,6 +475,9 @@ func (x *Explorer) clientFrame(c *gw.Client) (gw.Action, bool) {
 	x.nextID[c.Label]++
 	id := x.nextID[c.Label]
 	n := x.R.Intn(x.P.Resources)
+	if x.focusR >= 0 && x.R.Intn(10) < 6 {
+		n = x.focusR
+	}
 	if x.P.Clean {
 		// (clean mode: no request for a resource whose delete event may still be in flight — KF-PENDING-DROPPED)
 		for try := 0; try < 8 && x.deletedRids[name(n)]; try++ {
@@ -555,11 +576,22 @@ func Explore(seed int64, p Profile) (run *gw.Run, stall error) {
 		}
 	}()
 	x.initTruth()
+	x.focusC, x.focusR, x.slowR = -1, -1, -1
+	if x.R.Intn(2) == 0 {
+		x.focusC, x.focusR = x.R.Intn(p.Clients), x.R.Intn(p.Resources)
+	}
+	if x.R.Intn(2) == 0 {
+		x.slowR, x.slowTyp = x.R.Intn(p.Resources), x.R.Pick("get", "get", "access")
+	}
 	for i := 0; i < p.Clients; i++ {
 		x.Run.Do(gw.Action{A: "connect"})
 		c := x.Run.W.Clients[i]
 		x.nextID[c.Label]++
 		x.Run.Do(gw.Action{A: "frame", C: c.Label, Text: fmt.Sprintf(`{"id":%d,"method":"version","params":{"protocol":"1.2.1"}}`, x.nextID[c.Label])})
+	}
+	if p.Scenario != "" {
+		ExploreScenario(seed, p, x)
+		return run, nil
 	}
 	stimuli := 0
 	stopStep := 3 + x.R.Intn(60)
@@ -581,6 +613,10 @@ func Explore(seed int64, p Profile) (run *gw.Run, stall error) {
 		doStim := stimuli < p.Stimuli && (internal == 0 || x.R.Intn(10) < 3)
 		if !doStim {
 			k := x.R.Intn(internal)
+			if k >= len(ready) && x.slowR >= 0 && internal > 1 && stimuli < p.Stimuli &&
+				pend[k-len(ready)].Subject == x.slowTyp+"."+name(x.slowR) && x.R.Intn(5) != 0 {
+				k = x.R.Intn(internal) // the held-back request is rarely answered while other work exists
+			}
 			if k < len(ready) {
 				x.Run.Do(gw.Action{A: "grant", Text: ready[k]})
 			} else {
@@ -599,7 +635,15 @@ func Explore(seed int64, p Profile) (run *gw.Run, stall error) {
 		k := x.R.Intn(100)
 		switch {
 		case k < 45 && len(live) > 0:
-			if a, ok := x.clientFrame(live[x.R.Intn(len(live))]); ok {
+			cl := live[x.R.Intn(len(live))]
+			if x.focusC >= 0 && x.R.Intn(10) < 6 {
+				for _, c := range live {
+					if c == x.Run.W.Clients[x.focusC] {
+						cl = c
+					}
+				}
+			}
+			if a, ok := x.clientFrame(cl); ok {
 				x.Run.Do(a)
 			}
 		case k < 85:
@@ -637,11 +681,14 @@ func Explore(seed int64, p Profile) (run *gw.Run, stall error) {
 			x.Run.Do(gw.Action{A: "evict", Subj: name(x.R.Intn(p.Resources))})
 		case k < 94 && p.Tokens && len(live) > 0:
 			c := live[x.R.Intn(len(live))]
-			t := x.R.Intn(3)
-			x.tokens[c.Label] = t
-			payload := fmt.Sprintf(`{"token":{"t":%d},"tid":"tid%d"}`, t, t)
-			abs := fmt.Sprintf("token\tt%d\ttid%d", t, t)
-			x.Run.Do(gw.Action{A: "connevent", C: c.Label, Ev: "token", Text: payload, Abs: abs})
+			switch x.R.Intn(5) {
+			case 0:
+				x.tokenResetEvent()
+			case 1:
+				x.tokenEvent(c, x.R.Intn(3), false)
+			default:
+				x.tokenEvent(c, x.R.Intn(3), true)
+			}
 		case k < 97 && p.Resets:
 			var pats []string
 			for e := 1 + x.R.Intn(2); e > 0; e-- {
